@@ -81,6 +81,9 @@ CORPORA = {
                                   maxlen=3, preset="lean1", sim=False, lean=True, workers=8),
     "d3-unknown-ccs-follow2": dict(acts=["MaskSelect", "Unknown"], acts2=["ComputeChunkSizes", "Index", "Elemwise", "Reduce", "Transpose"],
                                    maxlen=3, preset="lean2", sim=False, lean=True, workers=8),
+    # rechunk of an unknown axis onto an unknown target with one / one more / the same number of blocks (C28: exact or refused)
+    "d2-unknown-rechunk-nan": dict(acts=["MaskSelect", "Unknown"], acts2=["RechunkNan"], maxlen=2, preset="lean", sim=False, lean=True,
+                                   workers=4),
     # entry points that return collections, with follow-on operations (C05)
     "d3-persist-follow1": dict(acts=ALL, acts2=["Persist"], acts3=ALL, maxlen=3, preset="lean1", sim=False, lean=True, workers=8,
                                excl=EXCL_DEEP),
